@@ -1117,6 +1117,11 @@ func (k *Kad) Outbound(peer p2p.Peer) {
 		}
 		return
 	}
+	if !peer.Mode.IsFull() {
+		// only full nodes are part of the topology: a light node that is already
+		// connected inbound can reach this through an "already connected" dial
+		return
+	}
 	k.knownPeers.Add(peer.Address)
 	k.connectedPeers.Add(peer.Address)
 
